@@ -25,7 +25,16 @@ def engines():
     import passlib.utils.binary as pb
     import libpass._utils.binary as lb
 
+    # libpass ships one instance (little-endian h64); its engine class also has a big-endian mode: instances over passlib's own alphabets
     return {"h64": pb.h64, "h64big": pb.h64big, "bcrypt64": pb.bcrypt64}, {"lp_h64": lb.h64_engine}
+
+
+def libpass_engines_like():
+    """libpass' engine class in both bit orders over passlib's alphabets: must encode exactly like passlib's engine of the same name"""
+    import passlib.utils.binary as pb
+    import libpass._utils.binary as lb
+
+    return {"h64big": lb.Base64Engine(pb.HASH64_CHARS, big=True), "bcrypt64": lb.Base64Engine(pb.BCRYPT_CHARS, big=True), "h64": lb.Base64Engine(pb.HASH64_CHARS, big=False)}
 
 
 def tables():
@@ -152,6 +161,13 @@ def correspond(ctx):
                 s_tr.add(f"b64 enct {name} {hx(src)} {o}", lambda src=src, offs=offs: hx(e.encode_transposed_bytes(src, offs)))
                 encd = e.encode_transposed_bytes(src, offs)
                 s_tr.add(f"b64 dect {name} {hx(encd)} {o}", lambda encd=encd, offs=offs: hx(e.decode_transposed_bytes(encd, offs)))
+    for name, e in libpass_engines_like().items():
+        for n in list(range(0, 40)) * 3:
+            bs = rng.randbytes(n)
+            s_codec.add(f"b64 enc {name} {hx(bs)}", lambda bs=bs, e=e: hx(e.encode_bytes(bs)), "lp-engine-like-" + name)
+        for a in range(256):
+            for bs in (bytes([a]), bytes([a, a ^ 0x5A]), bytes([7, a, a ^ 0xFF, a])):
+                s_codec.add(f"b64 enc {name} {hx(bs)}", lambda bs=bs, e=e: hx(e.encode_bytes(bs)), "lp-engine-like-" + name)
     for name, e in lpeng.items():
         for n in list(range(0, 70)) * 3:
             bs = rng.randbytes(n)
@@ -188,6 +204,12 @@ def correspond(ctx):
         for _ in range(6):
             s = bytes(rng.choice(alpha) for _ in range(n))
             s_std.add(f"b64 b64sdec {hx(s)}", lambda s=s: hx(pb.b64s_decode(s)), "b64sdec-arbitrary")
+            # libpass' copies answer every string (wrong lengths included) like passlib's, bytes and str
+            s_std.add(f"b64 b64sdec {hx(s)}", lambda s=s: hx(ld.b64s_decode(s)), "lp-b64sdec-arbitrary")
+            s_std.add(f"b64 b64sdec {hx(s)}", lambda s=s: hx(ld.b64s_decode(s.decode("ascii"))), "lp-b64sdec-arbitrary-str")
+            s_std.add(f"b64 ab64dec {hx(s)}", lambda s=s: hx(pb.ab64_decode(s)), "ab64dec-arbitrary")
+            s_std.add(f"b64 ab64dec {hx(s)}", lambda s=s: hx(ld.ab64_decode(s)), "lp-ab64dec-arbitrary")
+            s_std.add(f"b64 ab64dec {hx(s)}", lambda s=s: hx(ld.ab64_decode(s.decode("ascii"))), "lp-ab64dec-arbitrary-str")
     b32a = b"ABCDEFGHIJKLMNOPQRSTUVWXYZ234567"
     for n in range(0, 20):
         for _ in range(6):
@@ -324,6 +346,32 @@ def search(ctx, broken, seeds):
                     return {"input": {"op": "transposed", "engine": name, "table": tn, "bytes": src.hex()}, "observed": "round trip differs", "expected": "identity"}
     import libpass._utils.deprecated as ld
 
+    # libpass' engine class against passlib's engines, both bit orders
+    for name, e in libpass_engines_like().items():
+        ref = eng[name]
+        for n in list(range(0, 20)) * 40:
+            bs = ctx.rng.randbytes(n)
+            try:
+                got = e.encode_bytes(bs)
+            except Exception as ex:  # noqa: BLE001
+                got = type(ex).__name__
+            if got != ref.encode_bytes(bs):
+                return {"input": {"op": "libpass-engine", "like": name, "bytes": bs.hex()}, "observed": got.decode() if isinstance(got, bytes) else got,
+                        "expected": ref.encode_bytes(bs).decode() + f"  (passlib {name}; decodes back to the input)"}
+    # libpass' decoders answer every string like passlib's (same value or the same error class), bytes and text
+    alpha = pb.BASE64_CHARS.encode()
+    for n in list(range(0, 24)) * 8:
+        t = bytes(ctx.rng.choice(alpha) for _ in range(n))
+        for what, mine, theirs in (("b64s_decode", ld.b64s_decode, pb.b64s_decode), ("ab64_decode", ld.ab64_decode, pb.ab64_decode)):
+            for form in (t, t.decode("ascii")):
+                def run(f, x):
+                    try:
+                        return f(x).hex()
+                    except Exception as ex:  # noqa: BLE001
+                        return "err " + ("ValueError" if isinstance(ex, ValueError) else type(ex).__name__)
+                a, b = run(mine, form), run(theirs, form)
+                if a != b:
+                    return {"input": {"op": "libpass " + what, "text": repr(form)}, "observed": a, "expected": b + "  (passlib's decoder on the same string)"}
     for n in list(range(0, 60)) * 4:
         bs = ctx.rng.randbytes(n)
         for form in (lambda t: t, lambda t: t.decode("ascii")):
